@@ -212,6 +212,35 @@ Fixpoint section_loop {S} (ps : parsers S) (sec : section) (st : S)
            end
   end.
 
+(* The same two loops kept apart, exactly as the source has them:
+   [parse_section] returns [SectionFlow] (and, here, the unread lines), and the
+   [loop] of [decode] dispatches again.  The outer loop has no structural
+   bound of its own, hence fuel; Proofs/FramingFacts.v shows that
+   [length lines + 1] is always enough and that the result is [section_loop]
+   ([decode_loop_fused]). *)
+Fixpoint parse_section {S} (ps : parsers S) (f : S -> str -> S * res) (st : S)
+         (lines : list str) : S * option (section * list str) :=
+  match lines with
+  | [] => (st, None)                                     (* Ok(SectionFlow::Break(())) *)
+  | line :: rest =>
+      if skip ps line then parse_section ps f st rest
+      else match section_of_line line with
+           | Some next => (st, Some (next, rest))        (* Ok(SectionFlow::Continue(next)) *)
+           | None => parse_section ps f (fst (f st line)) rest
+           end
+  end.
+
+Fixpoint decode_loop {S} (fuel : nat) (ps : parsers S) (sec : section) (st : S)
+         (lines : list str) : outcome S :=
+  match fuel with
+  | O => OutOfFuel
+  | Datatypes.S k =>
+      match parse_section ps (parser_of ps sec) st lines with
+      | (st', Some (next, rest)) => decode_loop k ps next st' rest   (* section = next *)
+      | (st', None) => Done st'                                      (* break *)
+      end
+  end.
+
 (* DecodeBeatmap::decode after [Decoder::new] *)
 Definition driver {S V} (create : Z -> S) (ps : parsers S) (finish : S -> V)
            (lines : list str) : V :=
